@@ -1108,6 +1108,23 @@ func stubCborMarshal(e *Engine, fn *ssa.Function, args []Val) Val {
 			return mk(append([]Val{Int{W: 8, C: 0xfa}}, e.beBytes(bits, 4)...))
 		}
 		return mk(append([]Val{Int{W: 8, C: 0xfb}}, e.beBytes(bits, 8)...))
+	case Str:
+		// short text strings as real CBOR encodes them: major type 3 with the length in the header byte
+		if len(x.B) < 24 {
+			return mk(append([]Val{Int{W: 8, C: 0x60 + uint64(len(x.B))}}, x.B...))
+		}
+		if len(x.B) < 256 {
+			return mk(append([]Val{Int{W: 8, C: 0x78}, Int{W: 8, C: uint64(len(x.B))}}, x.B...))
+		}
+		unsup("cbor.Marshal of a string of %d bytes", len(x.B))
+	case Bool:
+		if x.sym() {
+			return mk([]Val{Int{W: 8, T: "(ite " + x.T + " #xf5 #xf4)"}})
+		}
+		if x.C {
+			return mk([]Val{Int{W: 8, C: 0xf5}})
+		}
+		return mk([]Val{Int{W: 8, C: 0xf4}})
 	}
 	if _, ok := v.T.Underlying().(*types.Struct); ok {
 		return stubBoxMarshal(e, fn, args)
@@ -1235,6 +1252,37 @@ func stubCborUnmarshal(e *Engine, fn *ssa.Function, args []Val) Val {
 	bt, _ := et.Underlying().(*types.Basic)
 	if _, ok := et.Underlying().(*types.Struct); ok {
 		return stubBoxUnmarshal(e, fn, args)
+	}
+	if it, ok := et.Underlying().(*types.Interface); ok && it.NumMethods() == 0 {
+		// into an empty interface: the kind is read off the header byte (which the models above write concretely)
+		if hdr.sym() {
+			// only a symbolic boolean has a symbolic header
+			e.store(p, Iface{T: types.Typ[types.Bool], V: Bool{T: "(= " + hdr.T + " #xf5)"}})
+			return Iface{}
+		}
+		switch {
+		case hdr.C == 0xf6:
+			e.store(p, Iface{})
+		case hdr.C == 0xf4 || hdr.C == 0xf5:
+			e.store(p, Iface{T: types.Typ[types.Bool], V: Bool{C: hdr.C == 0xf5}})
+		case hdr.C == 0x1b && len(cells) == 9:
+			// (the real decoder yields uint64 for non-negative and int64 for negative integers; every consumer
+			// reached so far converts either to int64 — core.NormalizeFieldValue)
+			v := e.fromBE(cells[1:], 64)
+			v.S = true
+			e.store(p, Iface{T: types.Typ[types.Int64], V: v})
+		case hdr.C <= 0x17 && len(cells) == 1:
+			e.store(p, Iface{T: types.Typ[types.Int64], V: Int{W: 64, S: true, C: hdr.C}})
+		case hdr.C == 0xfb && len(cells) == 9:
+			e.store(p, Iface{T: types.Typ[types.Float64], V: stubFloatFromBits(e, fn, []Val{e.fromBE(cells[1:], 64)})})
+		case hdr.C >= 0x60 && hdr.C < 0x78 && len(cells) == 1+int(hdr.C-0x60):
+			e.store(p, Iface{T: types.Typ[types.String], V: Str{B: append([]Val{}, cells[1:]...)}})
+		case hdr.C == 0x78 && len(cells) >= 2 && !cells[1].(Int).sym() && len(cells) == 2+int(cells[1].(Int).C):
+			e.store(p, Iface{T: types.Typ[types.String], V: Str{B: append([]Val{}, cells[2:]...)}})
+		default:
+			return fail()
+		}
+		return Iface{}
 	}
 	if bt == nil {
 		unsup("cbor.Unmarshal into %s", et)
